@@ -505,7 +505,10 @@ class State:
             except Exception:  # noqa: BLE001
                 extra = []
             if extra:
-                r, _ = self._check(z3.And(*extra), min(self.cfg.oblig_timeout_ms, 10000))
+                # in a fresh, non-incremental solver: the incremental one (push/pop on the path's solver) answered `unknown`
+                # after its whole budget on some runs and `sat` at once on others for the same witness query, depending on
+                # what else had been declared in the z3 context (other contract files loaded) — the fresh one answers in ms
+                r, _ = self._check_fresh(z3.And(*extra), min(self.cfg.oblig_timeout_ms, 10000))
         if r != z3.sat:
             budget = getattr(self.cfg, "cover_timeout_ms", None) or self.cfg.oblig_timeout_ms
             r, _ = self._check(z3.BoolVal(True), budget if witness is None else min(budget, 10000))
